@@ -293,6 +293,8 @@ HEADER_POOL = [
     (b"Connection", b"keep-alive"), (b"Connection", b"close"), (b"Content-Type", b"text/plain"),
     (b"X-Empty", b""), (b"X-Ws", b"a \t b"), (b"X-Utf", "hé".encode()), (b"Accept-Encoding", b"gzip, deflate"),
     (b"Expect", b"100-continue"), (b"X-Long", b"v" * 40), (b"Connection", b"Upgrade"), (b"Upgrade", b"websocket"),
+    # content codings in several spellings (the parser runs with auto_decompress off: only the reported coding matters)
+    (b"Content-Encoding", b"gzip"), (b"Content-Encoding", b"GZIP"), (b"Content-Encoding", b"Br"), (b"Content-Encoding", b"identity"),
 ]
 TARGETS = [b"/", b"/a/b?x=1&y=2", b"/%20x", b"/a#frag", b"*", b"http://example.com/p?q", b"/caf\xc3\xa9",
            b"//double", b"/a;b=c", b"http://[::1]:80/x"]
@@ -387,7 +389,7 @@ def gen_response(rng, lax=True):
 
 MUTATIONS = ["lfcr", "te_empty", "value_trailing_ctl", "chunk_size_lf", "nonutf8_err", "huge_cl", "dup_cl", "sign_cl", "space_cl", "us_cl", "uni_cl", "empty_cl", "cl_te", "te_list", "te_twice", "te_bad",
              "lf_for_crlf", "cr_only", "obs_fold", "ctl_value", "ctl_name", "ctl_target", "ws_before_colon", "ws_name_lead",
-             "no_colon", "chunk_plus", "chunk_0x", "chunk_space", "chunk_empty", "chunk_big", "chunk_ext_lf", "chunk_no_crlf",
+             "no_colon", "chunk_plus", "chunk_0x", "chunk_space", "chunk_empty", "chunk_big", "chunk_ext_lf", "chunk_ext_cr", "chunk_no_crlf",
              "bad_trailer", "no_host", "dup_host", "empty_host", "byte_flip", "byte_insert", "byte_delete", "truncate",
              "bad_version", "bad_method", "two_spaces", "kelvin_te", "long_line", "many_headers", "abs_bad_url", "connect_bad",
              "start_line_ws"]
@@ -503,7 +505,9 @@ def mutate(rng, data, kind=None):
         body = {
             "chunk_plus": b"+3\r\nabc\r\n0\r\n\r\n", "chunk_0x": b"0x3\r\nabc\r\n0\r\n\r\n", "chunk_space": b" 3\r\nabc\r\n0\r\n\r\n",
             "chunk_empty": b"\r\nabc\r\n0\r\n\r\n", "chunk_big": b"ffffffffffffffffffff\r\nabc\r\n0\r\n\r\n",
-            "chunk_ext_lf": b"3;a\nb\r\nabc\r\n0\r\n\r\n", "chunk_no_crlf": b"3\r\nabcX\r\n0\r\n\r\n",
+            "chunk_ext_lf": b"3;a\nb\r\nabc\r\n0\r\n\r\n",
+            "chunk_ext_cr": rng.choice([b"3;a\rb\r\nabc\r\n0\r\n\r\n", b"3;a=\"x\ry\"\r\nabc\r\n0\r\n\r\n", b"3\r\nabc\r\n0;z\r\r\n\r\n", b"3;\r\r\nabc\r\n0\r\n\r\n"]),
+            "chunk_no_crlf": b"3\r\nabcX\r\n0\r\n\r\n",
             "bad_trailer": rng.choice([b"0\r\nBad Trailer\r\n\r\n", b"0\r\nX : y\r\n\r\n", b"0\r\nX: a\x00\r\n\r\n", b"0\r\nX: y\n\r\n"]),
         }[kind]
         return head + body + b"GET /next HTTP/1.1\r\nHost: h\r\n\r\n", kind
